@@ -547,6 +547,23 @@ func c20FixedReads() []c20Op {
 	return ops
 }
 
+// c20FixedWrites: lists whose runs carry colours in several spellings (what a TTML, SubRip or teletext read leaves), to
+// every format: whatever a writer looks up per colour is looked up for the first time under contention.
+func c20FixedWrites() []c20Op {
+	var ops []c20Op
+	for k, cols := range [][]string{{"#FFFF00", "white", "#123456", "Red"}, {"#00FFFF", "#ff00FF", "lime", "#abcdef"}} {
+		g := glSpec{}
+		for i, col := range cols {
+			g.Cues = append(g.Cues, glCue{Start: int64(i+k) * 2e9, End: int64(i+k)*2e9 + 1e9, Lines: []glLine{{Runs: []glRun{{Text: "colour " + col, Color: col, TTML: map[string]string{"color": col}}}}}})
+		}
+		spec := g
+		for _, f := range writerFormats {
+			ops = append(ops, c20Op{Kind: "write", Format: f, Spec: &spec})
+		}
+	}
+	return ops
+}
+
 var c20Transforms = []string{"add", "fragment", "unfragment", "order", "merge", "optimize", "removestyling", "forceduration", "linear"}
 
 func genC20Op(t *rapid.T) c20Op {
@@ -640,6 +657,7 @@ func TestC20(t *testing.T) {
 				pool = append(pool, c20Op{Kind: "read", Format: "ts", Doc: doc, Opts: readOpts{PID: ttxPID, Page: st.pageOption()}, WantAny: []string{fmt.Sprintf("%q", run.Text), fmt.Sprintf("%q", run.AltText)}})
 			}
 			pool = append(pool, c20FixedReads()...)
+			pool = append(pool, c20FixedWrites()...)
 			// two scripts whose colours have the same digits, one decimal and one hexadecimal: results known by construction
 			for _, sc := range [][2]string{{"16777215", "Blue:255 Green:255 Red:255"}, {"&H16777215", "Alpha:22 Blue:119 Green:114 Red:21"}} {
 				doc := []byte("[Script Info]\nTitle: t\n\n[V4 Styles]\nFormat: Name, PrimaryColour\nStyle: a," + sc[0] + "\n\n[Events]\nFormat: Start, End, Style, Text\nDialogue: 0:00:01.00,0:00:02.00,a,x\n")
@@ -722,6 +740,7 @@ func TestC20(t *testing.T) {
 		td.Lang = code
 		pool = append(pool, c20Op{Kind: "read", Format: "ttml", Doc: renderTTML(td, ttmlRendering{StylePfx: "tts", XMLID: true, EOL: "\n"})}, c20Op{Kind: "write", Format: "ttml", Spec: &gl})
 		pool = append(pool, c20FixedReads()...)
+		pool = append(pool, c20FixedWrites()...)
 		// the file-level helpers under extension spellings this process has not met yet
 		for _, f := range []string{"srt", "vtt", "ttml", "ssa", "stl"} {
 			pool = append(pool, c20Op{Kind: "write", Format: "file:" + mixCase(rt, f), Spec: &g},
